@@ -86,18 +86,21 @@ Example C08_sample_ok :
   [(0, 0); (0, 2); (0, 3); (0, 4);  (0, 0); (0, 3); (0, 4);  (0, 0); (EINVAL, 0); (ENOENT, 0); (0, 0); (0, 1); (0, 5); (0, 5)].
 Proof. vm_compute. reflexivity. Qed.
 
-(** REFUTED at full strength (finding C08:xattr-clone-unregistered, fixes/C08-xattr-clone-unregistered.md,
-    reproduced on the real server by the harness on every run): the clone of an xattr fid is a fidRef
-    without parent that owns a File and is not registered in the path tree, so a rename of the entry is
-    never told to it.  Witness: fid 3 is bound to inode 2 (GetAttr says so), inode 2 stays reachable,
-    yet after the rename GetAttr through fid 3 fails with ENOENT while fids 1 and 2 still reach inode 2.
-    C08_coherent can therefore only hold for fids that are not clones of xattr fids. *)
+(** Formerly refuted (finding C08:xattr-clone-unregistered, fixed in /repo by e2b9169): the clone of an xattr
+    fid would be a fidRef outside the path tree that is never told about renames.  It is now refused:
+    EINVAL, no backend call in the handler, no fid bound. *)
+Theorem C08_xattr_clone_refused : forall B bstep c fid newfid g r o s,
+  alookup peqb (c, fid) (s_fids B s) = Some r -> fr_xattrOf (get_ref B s r) = Some o ->
+  fr_opened (get_ref B s r) && (fid =? newfid) = false ->
+  step B bstep (OWalk c fid newfid [] g) s = (rerr EINVAL, release B bstep r (hold B r s)).
+Proof. exact xattr_clone_refused. Qed.
+Print Assumptions C08_xattr_clone_refused.
+
+(** the former witness: the clone is refused, fid 3 stays unbound (EBADF), the xattr fid follows the rename *)
 Definition c08_xattr_clone : list op :=
   [OAttach 0 0 []; OMk 0 0 0 1; OWalk 0 0 1 [1] false; OXattrWalk 0 1 2; OWalk 0 2 3 [] false; OGetAttr 0 3;
    ORenameAt 0 0 1 0 2; OGetAttr 0 1; OGetAttr 0 2; OGetAttr 0 3].
-Theorem C08_coherent_refuted :
-  exists ops, let '(replies, s) := run pfs pfs_step ops (init_state pfs (pfs_init true [])) in
-    nth 5 replies (1, 0) = (0, 2) /\ alive (s_be pfs s) 2 = true /\
-    nth 7 replies (1, 0) = (0, 2) /\ nth 9 replies (0, 0) = (ENOENT, 0) /\ s_panic pfs s = false.
-Proof. exists c08_xattr_clone. vm_compute. repeat split; reflexivity. Qed.
-Print Assumptions C08_coherent_refuted.
+Example C08_xattr_clone_sample :
+  let '(replies, s) := run pfs pfs_step c08_xattr_clone (init_state pfs (pfs_init true [])) in
+  skipn 4 replies = [(EINVAL, 0); (EBADF, 0); (0, 0); (0, 2); (0, 2); (EBADF, 0)] /\ s_nexth pfs s = 2.
+Proof. vm_compute. split; reflexivity. Qed.
